@@ -68,6 +68,9 @@ func H_C19_Options() {
 	vSetup()
 	defer vCleanup()
 	pair := optPairs[vParam("pair")]
+	// sparse mode is a different implementation of the reads: there "empty" and "error" may swap (§4.1)
+	vObsStrict = pair[0].mode != HintBPTSparseIdxMode && pair[1].mode != HintBPTSparseIdxMode
+	defer func() { vObsStrict = true }()
 	// segment sizes: roomy, one entry per file, and "an entry exactly fills the segment" (45 = 42+1+1+1)
 	segs := []int64{4096, 60, 45, 90}
 	seg := segs[vChoose(vParam("nseg"))]
